@@ -450,6 +450,26 @@ def rule_number_constants(ctx, rule_id="C16.number-constants"):
               line=pads[0][3].lineno if pads else fi.node.lineno, function=fi.qualname,
               expected="q = e - len(digits); while q >= 0: q -= 1; digits += '0'   /   q = e; while q < -1: q += 1; frac = '0' + frac",
               found=[(d_, k_, i_) for d_, k_, i_, _w in pads])
+    # 5c. the sign is the FIRST character of the repr and only that one is taken off: a replace('-', '') also removes the sign of
+    #     the exponent (-1e-07 -> 1e07)
+    sign_ifs = [x for x in body_walk(fi.node) if isinstance(x, ast.If) and any(
+        isinstance(a_, ast.Assign) and isinstance(a_.value, ast.Constant) and a_.value.value == "-" for a_ in x.body)]
+    oks = bool(sign_ifs)
+    founds = []
+    for x in sign_ifs:
+        for a_ in x.body:
+            if isinstance(a_, ast.Assign) and not (isinstance(a_.value, ast.Constant)):
+                founds.append(short(a_, 60))
+                v = a_.value
+                front_only = isinstance(v, ast.Subscript) and isinstance(v.slice, ast.Slice) and v.slice.lower is not None \
+                    and norm(v.slice.lower) == "1" and v.slice.upper is None
+                if not front_only:
+                    oks = False
+    run.check(oks, R, key(rel, fi.qualname, "sign-taken-off-at-the-front-only"),
+              "the minus sign is not removed by dropping exactly the first character of the number text: a replace / strip also "
+              "removes the sign of the exponent, so negative numbers below 1e-4 are written as huge numbers", file=rel,
+              line=sign_ifs[0].lineno if sign_ifs else fi.node.lineno, function=fi.qualname, expected="pyDouble = pyDouble[1:]",
+              found=founds)
     # 6. sign handled and result is the concatenation
     rets = [r for r in returns_of(fi) if norm(r.value) != "'0'"]
     ok6 = len(rets) == 1 and isinstance(rets[0].value, ast.BinOp) and len([x for x in ast.walk(rets[0].value) if isinstance(x, ast.Name)]) == 5
